@@ -57,3 +57,13 @@ REGISTRY.update({
     "C30": _mc("explicit-state enumeration of unsimplified and simplified generator terminals x internal-sample flags, direct per-tree scan oracle, accept/reject of the three methods",
                "Every unsimplified terminal of the ARG generator (nodes unary in some trees only) and its simplification, each also with every internal node flagged as a sample: the three detectors equal a direct num_children==1 scan; variational_gamma rejects iff a non-sample node is locally unary, the discrete methods iff any node is; everything else is accepted."),
 })
+
+_META = _ARGS + "; agreement tolerances: bit-identity (C08), 1e-9 on exactly representable transformations, 1e-6 otherwise with tie-sensitive inputs classified separately"
+REGISTRY.update({
+    "C06": _mc("explicit-state enumeration of inputs x methods/options x a two-part lattice of unit factors; metamorphic oracle with an exactness argument (power-of-two factors scale every intermediate exactly)",
+               "Every bounded ARG x mutation menu x 7-9 method/option vectors x 10 unit factors: outputs of the run at (mu/c, c*mbl, c*N, c*eps, c*grid) must equal c (c^2 for variances) times the base run, to 1e-9 on power-of-two factors without any guard and to 1e-6 elsewhere.", _META),
+    "C07": _mc("explicit-state enumeration of inputs x methods/options x lattice of coordinate factors x uniform/non-uniform locus lengths; metamorphic oracle",
+               "Every bounded ARG x mutation menu x method/option vectors x 10 factors x {unit loci, loci of growing length}: multiplying all genomic coordinates by c and dividing the rate by c must leave node times, mutation times and posterior moments unchanged (1e-9 exact factors, 1e-6 others).", _META),
+    "C08": _mc("explicit-state enumeration of inputs x each irrelevant-data perturbation alone and all together x methods; bit-identity oracle",
+               "Every bounded ARG x mutation menu x 9 perturbations (metadata under three codecs, schemas, populations, provenance, time_units, reference, edge metadata, state strings, monomorphic sites, known mutation times, individuals) x 5 method/option vectors: all numeric outputs bit-identical to the unperturbed run; a perturbed run may not fail where the plain one returns.", _META),
+})
